@@ -678,6 +678,7 @@ func gen(g *core.G) {
 		args, blk := randTable(r).randArgs(r)
 		g.Emit(callLine(t, args, blk))
 	}
+	genCalls(g)
 	genNewM(g)
 	genNewC(g)
 	genNew(g)
